@@ -16,7 +16,8 @@ from core import log
 
 PROP = "C16"
 OUT = tlc.OUT
-FNAME = {"fact": "factorial", "pow": "power", "fib": "fib", "fibacc": "fib-acc", "gcd": "gcd", "count": "countdown-acc"}
+FNAME = {"fact": "factorial", "pow": "power", "fib": "fib", "fibacc": "fib-acc", "gcd": "gcd", "count": "countdown-acc",
+         "countup": "count-up", "gcdp": "gcd-p", "powacc": "pow-acc"}
 
 # ---------------------------------------------------------------- rendering (abstract -> Mech text)
 def u(n): return f"{n}u64"
@@ -162,7 +163,7 @@ def to_events(lines, errored):
     return evs
 
 def def_record(defn, call, bcast=False, enumfn=False):
-    return {"ev": "Def", "nargs": defn["nargs"], "arms": defn["arms"], "call": call, "bcast": bcast,
+    return {"ev": "Def", "nargs": defn["nargs"], "arms": defn["arms"], "params": defn.get("params", []), "call": call, "bcast": bcast,
             "enumfn": enumfn, "variants": ["circle", "square", "dot"] if enumfn else []}
 
 _msg_re = re.compile(r'^<<"MSG", "(.*)">>')
@@ -321,7 +322,7 @@ def run(rep, tier, seed):
         elif cs["kind"] == "rec":
             name = FNAME[cs["name"]]
             d = cs["def"]
-            inp = ", ".join(f"in{i}<u64>" for i in range(d["nargs"]))
+            inp = ", ".join(f"{pn}<u64>" for pn in d["params"]) if "params" in d else ", ".join(f"in{i}<u64>" for i in range(d["nargs"]))
             stmts = [fn_define(f"{name}({inp}) => <u64>", d["arms"], name), f"{name}(" + ", ".join(u(x) for x in cs["call"]) + ")"]
             tags = [("setup",), ("rec",)]
         else:
